@@ -27,7 +27,7 @@ for e in known:
 def sh(c): return subprocess.run(c, shell=True, capture_output=True, text=True).stdout.strip()
 repo_log = "\n".join(l for l in sh("git -C /repo log --format='%h %s' | head -40").splitlines() if " fix:" in l or " verif:" in l)
 
-SPEC = {"C01": "Ops.tla, Decls.tla, Lits.tla, StmtRules.tla, Builtins.tla", "C02": "Ops.tla, Decls.tla, Lits.tla, StmtRules.tla, Builtins.tla, Flow.tla, Headers.tla", "C03": "Ops.tla, Decls.tla, Lits.tla, Builtins.tla, Select.tla", "C04": "Ops.tla, Decls.tla, Builtins.tla",
+SPEC = {"C01": "Ops.tla, Decls.tla, Lits.tla, StmtRules.tla, Builtins.tla", "C02": "Ops.tla, Decls.tla, Lits.tla, StmtRules.tla, Builtins.tla, Flow.tla, Headers.tla", "C03": "Ops.tla, Decls.tla, Lits.tla, Builtins.tla, Select.tla", "C04": "Ops.tla, Decls.tla, Builtins.tla, Units.tla",
         "C05": "GoTypes.tla, Grid.tla", "C06": "Overload.tla", "C07": "Infer.tla", "C08": "Select.tla", "C09": "Imports.tla", "C10": "Flow.tla",
         "C11": "Lower.tla", "C12": "Print.tla, Comments.tla, Flow.tla, Headers.tla", "C13": "TypeSyntax.tla (GoTypes.tla)", "C14": "Zero.tla (GoTypes.tla)",
         "C15": "Determinism.tla", "C16": "Builder.tla, Blocks.tla, BlockTrace.tla", "C17": "Total.tla, Builtins.tla", "C18": "Shared.tla", "C19": "TypeMap.tla, TypeMapTrace.tla", "C20": "Cache.tla"}
@@ -40,12 +40,12 @@ DRIVER = {"C01": "c01_04.go, expr.go, decls.go, lits.go, stmtrules.go, builtins.
 REMARK = {
 "C01": """TLC evaluates laws on Ops.tla itself (commutativity of the verdict for commutative operators, constness closed under folding, shift laws); the harness validates *every* point against `types.Eval` on an independent one-line rendering (S = T, else exit 2) before the builder's outcome is judged. Two engines: expressions (`opsRun`) and statements (`declsRun`: `:=`, `=`, `var`, `return` with single values, multi-value calls, comma-ok forms, redeclaration, const blocks with iota, implicit repetition and a trailing stand-alone `const S = iota`). A third engine (`litRun`, Lits.tla) covers composite literals, index and slice expressions and indirection; its first run agreed with go/types after two corrections of the model (a 3-index slice without middle index is not syntax; duplicate keys of a map with interface key type are compared after default typing) and exposed five more root causes of unsound acceptance (KF-C01-11..15), one of spurious rejection (KF-C02-5) and one of type reporting (KF-C03-4). A fourth engine (`srRun`, StmtRules.tla) covers the typing rules of statement heads; four corrections of the model came from go/types (boolean constants are not checked for duplicate cases; a tagless switch compares `true == x`, so interface cases are fine; an untyped boolean case is comparable with an interface tag) and it exposed KF-C01-16..18 (duplicate cases, unchecked send statements, range over a send-only channel). The four properties C01-C04 are four *verdicts* of the same points (`opsClassify` / `declsClassify`): unsound acceptance, spurious rejection, reported type, constness/value. **Later engines, same discipline (S = T on every point, else exit 2):** Lits.tla (composite literals incl. open-length arrays `[...]T{..}` whose length enters the type, index / slice / indirection / conversions), StmtRules.tla (conditions, switch cases, range, type switch and type assertion incl. methods on the pointer receiver or of another signature, send, `++`) and Builtins.tla (the predeclared functions `len cap new make append copy delete complex real imag min max clear close panic`, `unsafe.Sizeof/Alignof/Offsetof`: 16 541 calls; the model agreed with go/types on validity, result type, constness, exact constant value and untypedness at its second run - the first had the size of a directional channel wrong). Builtins.tla exposed six further root causes (KF-C01-19..21, KF-C03-6/7, KF-C04-3).""",
 "C02": """Besides the C01 engine's "valid Go rejected" verdict, C02 owns the statement level. (1) **Flow bodies**: every *valid* function body enumerated from Flow.tla (validity = no missing return, no unused / duplicate label; cross-checked with go/types) is built in one package per batch, the package is written, and each emitted function must have the same *typed canonical tree* (astcanon.go: positions, comments, redundant parentheses, `else { if }` vs `else if`, grouped field names, empty result lists and import names removed; every identifier annotated with universe / package / member / n-th local as go/types resolves it) as an independent rendering of the same operations. Flow.tla gained the action `FGoto` (forward goto: `NewLabel` + `Goto` now, `Label` later in an enclosing block, tracked by block paths of frame ids) for this. (2) **Headers.tla** transcribes the Go specification's composite-literal ambiguity rule (`Exposed`, with the precedence refinement that a unary or binary operand of a primary expression is necessarily parenthesised) and places every expression tree of a grammar (8 bases incl. a literal of an instantiated generic type, chains of selectors / method calls, 17 finals) in 14 statement contexts; `go/parser` on the text *without* protective parentheses validates `Ambiguous` on every point. The builder must accept each placement and emit text that parses back to the same tree. (3) **Expression shapes** (c02_shapes.go): the trees of Print.tla over operators closed on one operand type are pushed on the operand stack and the expression the builder holds must read back as the same tree - added after a seeded change to the printer (`x op (y op z)` printed without parentheses) slipped through: the nested family of Ops.tla is left-nested only.""",
-"C03": """Same points as C01; additionally the lookups of Select.tla are replayed with `selectForC03`: the result type of `MemberVal` / method expressions and the object passed to `Recorder.Member` must be the member Go selects.""",
-"C04": """Same points; compared are constness and the exact constant value (go/constant `ExactString`), also for constant declarations (`Package.Types.Scope()` entries vs go/types on the written package).""",
+"C03": """Same points as C01; additionally the lookups of Select.tla are replayed with `selectForC03`: the result type of `MemberVal` / method expressions and the object passed to `Recorder.Member` must be the member Go selects. **Round 2:** a typed constant shifted by a variable (`c << n`) had been left out of Ops.tla together with the genuinely context-dependent untyped case; it is a non-constant value of the constant's type.""",
+"C04": """Same points; compared are constness and the exact constant value (go/constant `ExactString`), also for constant declarations (`Package.Types.Scope()` entries vs go/types on the written package). **Round 2:** Units.tla (literals with a unit as the constant conversion `T(literal * factor)` in exact decimal arithmetic, *histories* of literals replayed on one package because the parsed unit table is cached per type) and the symbolic complement `2^w - k` of unsigned constants in Builtins.tla were added after two seeded changes slipped through; Units.tla at once exposed a genuine defect (`2.5mm` of an integer-based type emitted as the INT literal `5/2`), repaired in 1867c48.""",
 "C05": """GoTypes.tla carries symbolic constants 2^e+d (TLC integers are 32-bit) so that representability is exact up to 2^1024. TLC checks meta-invariants on the grid (assignability implies convertibility, identical types are mutually assignable, comparison symmetric, ...). Every grid point is asked of go/types (S = T) and of the real `AssignableTo / AssignableConv / ComparableTo / ConvertibleTo / Default` with both argument orders. Root-cause predicates (`c05RootCause`) attribute a failing point to one of six known classes; anything else is a violation. Every point is asked a second time with alias types (`type AV = V`): the alias-nil defect repaired in 3ba0e5d (found by C11) would have been reported as `alias-changes-verdict/ComparableTo...` - checked by reverting the fix.""",
 "C06": """The model is a *step machine* mirroring `matchFuncCall`: Backup, Enter (arity + inference on the current arguments, bind stored), Step (one argument against one parameter; rewrites `init0/init1` through `T_Init__k`, `inst` for a generic function value, `narrow` for a single-candidate overloaded value - the narrowing also happens when the match fails), Fail (restore), Succeed. Invariants FirstApplicable / NoResidue / ResultType compare the machine with the functional definition; `Restore = FALSE` must violate them (run on every invocation). Named deviations of the implementation are parameters of the functional definition (`d = TRUE`), so that a failing point that equals the deviation's prediction is attributed to KF-C06-1..3 and everything else is a violation. A hand mutant (dropping `restoreArgs` in the function loop) is caught. Realisations: imported functions, value / pointer receiver methods, interface methods, an `XGoo_` ordered family (names in reverse lexical order), an in-package family (`NewOverloadFunc`), and the overloaded binary operator (`x + arg` with methods `XGo_Add__i`) for families of one-operand signatures. **Round 2:** long threshold families (1-12 members, base-36 member suffixes, blank `XGoo_` slots) and the *retry* realisation (an accepted call repeated after a call that no candidate accepts, through the same callee element) were added after two seeded changes slipped through.""",
 "C07": """The first version of the fragment agreed with go/types on all 21 184 points at the first run; three later disagreements refined the model (explicit type arguments are never re-bound to a defined type; a bare unary/`StarExpr` etc. are not part of it). The replay found the variadic-adapter defect at once (fixed, 0deb63f). Function values (`InferFV`: parameters *and* results of the generic function unified exactly with the expected function type), `f(xs...)` calls and the type-as-parameter realisation (`XGox_` functions called as `F(T1, args..)`) were added after the seeded changes for C07 were missed; they exposed two more defects (183f873, b42d3c6). **Round 2:** `InferPV` (an explicitly instantiated function used as a plain value: only core types can supply the rest, every type argument is checked) and signature 18 `Gather[T, U any](u U, xs ...T)` (explicit-only variadic element parameter next to an inferred one) were added after two seeded changes slipped through.""",
-"C08": """Select.tla was validated against `types.LookupFieldOrMethod` on every lookup (S = T). Replayed: `MemberVal`, `MemberRef`, method expressions `(T).m` / `(*T).m`, with addressable / non-addressable / pointer operands.""",
+"C08": """Select.tla was validated against `types.LookupFieldOrMethod` on every lookup (S = T). Replayed: `MemberVal`, `MemberRef`, method expressions `(T).m` / `(*T).m`, with addressable / non-addressable / pointer operands. **Round 2:** two more realisations of every graph - types with equal field lists sharing one struct object (`type B A`), and delay-loaded types whose underlying type and methods arrive through `Config.LoadNamed` at the first lookup - were added after two seeded changes slipped through.""",
 "C09": """Histories are replayed with `go/types` on every written file (imports exactly the used packages, names unique, no collision with declared names, references resolve to the intended package). Failing histories are delta-debugged (operations removed, arguments simplified) to a minimal witness whose *shape* is the finding key; five root causes are known findings, two were fixed. **Round 2:** `Visit` (a whole declaration made in the other file between `SetCurFile` and `RestoreCurFile`) and `RefAt` (references from ten syntactic positions, e.g. the key of a map literal) were added after two seeded changes slipped through: `RestoreCurFile` had only been used inside `Cross`, all of whose histories fall under KF-C09-1, and every reference had been a call statement or a variable type.""",
 "C10": """S (Flow.tla's Term/TermList/HasBreak transcription and label counters) = T (go/types diagnostics on an independent rendering) on every body, else exit 2. Compared with the builder: number of `missing return`, unused labels, duplicate labels. Forward gotos were added with C02.""",
 "C11": """R1-R6 are compared structurally (typed canonical tree of the emitted declaration vs the reference lowering rendered as Go; for the `any` member rule after inlining the hoisted `_autoGo_k` temporaries, plus the placement predicate for loop conditions). R5 is judged by value: the emitted construction (`big.NewInt`, `SetString`, `NewRat`, `SetFrac`, wrapped by init functions) is evaluated with math/big. R7 (user-defined range enumerators: iterator-function and `Next()` styles, pointer and value iterators, receivers that Go could range over natively, every loop-variable form, bodies with `break`) and R8 (inline closure calls: 0-2 parameters, variadic with 0-2 extra arguments, 0-2 results, plain / early-return / unused-parameter / mutating bodies) are judged by **execution**: the emitted functions and hand-written plain-Go references (a real range loop over the enumerated sequence, a real closure call) are compiled into one program with instrumented operands and run under three condition schedules; their traces (evaluation order, bound values, results, final values of assigned variables) must be equal. For assignment-form loop variables over `Next()` enumerators the reference is the documented loop (the final failing `Next()` overwrites the variable), not Go's native range.""",
